@@ -34,6 +34,10 @@ def run(ctx):
     import cachewriters
     cachewriters.check(ctx, "R05.7")
     include_namespaces(ctx)
+    import c08, engine
+    a = engine.AliasCtx(ctx, {"R08.10": "R05.6"})
+    c08.instance_registration(a)
+    c08.resource_alias_names(a)
 
 
 def include_namespaces(ctx):
